@@ -37,6 +37,37 @@ CHECKS.update({
              'between chunks of one string on one thread',
         design='5/C08'),
 })
+CHECKS.update({
+    'C05': dict(
+        technique='TLC model checking of Interleave_MC (all pairs/triples of per-thread programs x ALL interleavings, '
+                  'invariant log[t] = Solo(prefix), negative control with the parser-wide slot); every exported '
+                  'schedule replayed on TracesParser; random programs: interleaved vs solo runs of the code and '
+                  'validation of interleaved runs against Pairing!Step in TLC',
+        text='All interleavings inside the bounds are explored on the design (where the parser-wide slot defect shows '
+             'as a 3-step counterexample), every explored schedule is replayed on the code, and richer random programs '
+             'over all decoder families are compared solo vs interleaved.',
+        note='programs <= 3 templates x 2 threads (quick) / 3 threads (thorough) exhaustively; cross-thread reads '
+             '(thread-terminate pid/name, dyld string ids) masked as the statement carves out',
+        design='5/C05'),
+    'C07': dict(
+        technique='TLC model checking of Context_MC (every history over consumers and providers of context: totality '
+                  'of Pairing!Step + omit rule); recorded executions of every registered decoder without context, '
+                  'consumer x provider subsets, noisy streams and all their dropped prefixes validated by TLC; same '
+                  'streams through PyKdebugParser.formatted_traces',
+        text='The spec has no error state, so any exception of the code is a divergence; TLC enumerates the omission '
+             'space on the design, the harness instantiates the consumer slots with every registered decoder.',
+        note='in-domain arguments from the frozen audit; valid UTF-8 strings; bounds: histories <= 5-6 (TLC), streams '
+             '<= 50 events (code)',
+        design='5/C07'),
+    'C20': dict(
+        technique='TLC model checking of Composite_MC (VmfExact, LaunchExact, PerfExact on every sequence of nested '
+                  'records); systematic and random composite windows recorded from the code and validated against '
+                  'Pairing!Step in TLC (full mode)',
+        text='Every order/multiplicity of nested records up to depth 5-6 on the design; every systematic window shape '
+             '(kinds x orders x flags x header counts) on the code.',
+        note='undecoded-first real-fault record: pid/protection wildcard; tie order of equal load addresses not pinned',
+        design='5/C20'),
+})
 PENDING = {}
 
 ALL = ['C%02d' % i for i in range(1, 21)]
